@@ -1,3 +1,4 @@
 pub mod canon;
 pub mod rt;
 pub mod scn;
+pub mod valloc;
